@@ -34,6 +34,9 @@ It never calls a transition function of the model.  For every `cylc set` command
                            the graph says when T is spawned by the command), no other pooled task changes its
                            prerequisites; a command that names no prerequisite of T changes nothing in the pool;
 * `set-pre-not-spawned`    T enters the pool unless the database has a record of it in these flows / pre-start.
+* `suicide-prereq-satisfied` the suicide prerequisites (`... => !T`) are not prerequisites of T: no suicide prerequisite
+                           atom of a pooled task, or of T when the command spawns it, becomes satisfied by the command
+                           (`--pre=all` included);
 * `xtrigger-not-satisfied` / `xtrigger-changed`  xtrigger prerequisites (`--pre=xtrigger/<label>`, `xtrigger/all`): the
                            named xtriggers that T carries (all of them with `xtrigger/all`) - the dynamic retry
                            xtriggers included - are satisfied afterwards, no other xtrigger of any pooled task changes;
@@ -224,6 +227,18 @@ def judgeSetPre (g : Graph) (c : SetCmd) (pre post : Ob) : Option String :=
       else if e.2.2 != b.2 then
         some s!"xtrigger-changed: xtrigger {e.2.1} of {showKey e.1} went from {b.2} to {e.2.2} (not requested)"
       else none
+  -- suicide prerequisites are not prerequisites for running the task: no atom of a suicide prerequisite of a task
+  -- that was in the pool, or of T when the command spawns it, becomes satisfied (a spawned T starts from what the
+  -- graph gives it and the recorded absolute outputs)
+  let graphSui : List (Atom × Bool) := d.sui.flatMap (·.atoms)
+  let cS : Option String := firstSome post.suip fun e =>
+    firstSome (e.2.flatMap id) fun a =>
+      let before : Bool := match pre.suiOf e.1 with
+        | some l => l.any fun b => b.1 == a.1 && b.2
+        | none => e.1 != k || pre.has k || (graphSui.any fun b => b.1 == a.1 && b.2) || post.absDone.contains a.1
+      if a.2 && !before then
+        some s!"suicide-prereq-satisfied: the suicide prerequisite {showAtom a.1} of {showKey e.1} became satisfied by cylc set --pre={c.pres}"
+      else none
   let graphAtoms : List (Atom × Bool) := d.pre.flatMap (·.atoms)
   let own (a : Atom) : Bool := match x0 with
     | some x => hasAtom x a
@@ -233,6 +248,7 @@ def judgeSetPre (g : Graph) (c : SetCmd) (pre post : Ob) : Option String :=
   let valid := reqAtoms.filter fun a => d.validPre.contains a
   let cf := cmdFlows c pre post
   if !post.launch.isEmpty then some s!"set-made-active: cylc set --pre launched a job" else
+  if cS.isSome then cS else
   if !setAll && valid.isEmpty && validX.isEmpty then
     -- names no prerequisite of T: nothing happens to the pool
     if post.pool.map (fun t => (t.key, t.st, t.fl, t.out, atomsOf t)) !=
